@@ -28,7 +28,11 @@ def run(ck):
         eng, paths = cfgpaths.summarise(tu, 'eav_is_email')
         classes = shared.assignable_classes(tu)
         # ---- R8.2
-        bits = {k: v for k, v in tu.enums.items() if k.startswith('EAV_TLD_')}
+        # the policy bits are the enumerators of the public enum that declares them (a file-local constant that happens to
+        # start with EAV_TLD_, e.g. a named default mask, is not one of them)
+        pub = [names for names in tu.enum_decls.values() if 'EAV_TLD_COUNTRY_CODE' in names]
+        if not pub: raise AnalysisBroken('enum with EAV_TLD_COUNTRY_CODE not found')
+        bits = {k: tu.enums[k] for k in pub[0] if k.startswith('EAV_TLD_')}
         if b == 'idn2':
             seen = {}
             for k, v in bits.items():
@@ -57,7 +61,8 @@ def run(ck):
                 want = [('eav->errcode', f'EEAV_TLD_{x}'), ('<a local>', f'(eav->allow_tld & EAV_TLD_{x})')]
                 head = sets[:2]
                 # the arm records the class's code and keeps the mask test in a local (whatever it is called)
-                got_ok = len(head) == 2 and ('eav->errcode', f'EEAV_TLD_{x}') in head and any(re.fullmatch(r'\w+', t) and v == f'(eav->allow_tld & EAV_TLD_{x})' for t, v in head)
+                # ... or keeps the class's bit in a local that is tested against the mask after the switch (R8.3 checks the test)
+                got_ok = len(head) == 2 and ('eav->errcode', f'EEAV_TLD_{x}') in head and any(re.fullmatch(r'\w+', t) and v in (f'(eav->allow_tld & EAV_TLD_{x})', f'((eav->allow_tld & EAV_TLD_{x}) != 0)', f'EAV_TLD_{x}') for t, v in head)
                 if not got_ok: okall = False; det = {'effects': sets, 'want': want}
                 rs = p.last_set('eav->result', before=i)
                 if rs is None or scrut != rs[2] + '->rc': okall = False; det = {'scrutinee': scrut, 'result': rs[2] if rs else None}
@@ -93,9 +98,9 @@ def run(ck):
             x = m.group(1) if m else '?'
             t = f'(eav->allow_tld & EAV_TLD_{x})'
             last = p.last_set('eav->errcode')
-            if p.passed(t, True, ) :
+            if shared.value_is_nonzero(p, t):
                 ok = ok and ret[1] == '1' and last[2] == 'EEAV_NO_ERROR'
-            elif p.passed(t, False):
+            elif shared.value_is_zero(p, t):
                 ok = ok and ret[1] == '0' and last[2] == f'EEAV_TLD_{x}'
             else: ok = False
             r3.instance(f'{site}:path{n}', ok=ok, wclass='post-switch', detail=txt, what=f'class {x}: decision is not "accept with NO_ERROR iff allow_tld & EAV_TLD_{x}"')
